@@ -492,6 +492,7 @@ def run(run, model):
     run.try_rule(c11.r11_15, model)
     run.rule("R01.8", "nothing the source does is lost before type checking: an expression the parser accepts at file level is reported (shared with C11 R11.17)")
     run.try_rule(c11.r11_17, model)
+    run.try_rule(c11.r11_20, model)
     run.assume("pipeline::compile returns the AST only when lowering pushed no error, so a None after push_error cannot reach later stages")
     run.assume("`?` on a raw CST accessor in ast::lower is sound only if the parser emits that child in every error-free tree (not decided here)")
     run.assume("restructuring arms (decision trees, closure conversion, ANF naming, Go statement shapes) are outside R01.4 by construction: they build a different variant")
